@@ -2,7 +2,8 @@
    sites (extracted from the generated sources with CPython's ast, not taken from rope) together with what
    the instrumented rope did at every call site; the comparison is computed here by vm_compute. *)
 From Coq Require Import List NArith ZArith Bool.
-From RopeVerif.C04 Require Import Inline Expr Call.
+From RopeVerif.Lib Require Import Text.
+From RopeVerif.C04 Require Import Inline Expr Call Receiver.
 Import ListNotations.
 
 Definition pairs_eqb (a b : list (N * N)) : bool :=
@@ -201,3 +202,21 @@ Definition vresults (cs : list vcase) : list (N * N) := number_from run_vcase 0 
 Fixpoint number_list (i : N) (l : list N) : list (N * N) :=
   match l with [] => [] | x :: r => (i, x) :: number_list (N.succ i) r end.
 Definition dresults (cs : list dcase) : list (N * N) := number_list 0 (flat_map run_dcase cs).
+
+(* ------------------------------------------------------------------------------------------------ *)
+(* CallInfo.read: the argument list with the implicit receiver, on the text of the call *)
+Record rcase := mkR {
+  r_head     : text;            (* source in front of the opening parenthesis (CPython ast: the func node) *)
+  r_implicit : bool;            (* rope classified the call as a method / classmethod call *)
+  r_pos      : list text;       (* source of the positional arguments (CPython ast) *)
+  r_obs      : list text        (* CallInfo.args as rope computed them *)
+}.
+Fixpoint texts_eqb (a b : list text) : bool :=
+  match a, b with
+  | [], [] => true
+  | x :: a', y :: b' => text_eqb x y && texts_eqb a' b'
+  | _, _ => false
+  end.
+Definition run_rcase (c : rcase) : N :=
+  if texts_eqb (read_args (r_implicit c) (r_head c) (r_pos c)) (r_obs c) then 0%N else 1%N.
+Definition rresults (cs : list rcase) : list (N * N) := nonzero (number_from run_rcase 0 cs).
